@@ -841,6 +841,7 @@ class Channel(ClosingContextManager):
             sent, there is no way to determine how much data (if any) was sent.
             This is irritating, but identically follows Python's API.
         """
+        s = util.asbytes(s)
         while s:
             sent = self.send(s)
             if sent == 0:
@@ -865,6 +866,7 @@ class Channel(ClosingContextManager):
 
         .. versionadded:: 1.1
         """
+        s = util.asbytes(s)
         while s:
             sent = self.send_stderr(s)
             if sent == 0:
@@ -1209,6 +1211,9 @@ class Channel(ClosingContextManager):
     # ...internals...
 
     def _send(self, s, m):
+        # text goes out as its UTF-8 form: window and packet size are counted
+        # (and the result is reported) in bytes, not characters
+        s = util.asbytes(s)
         size = len(s)
         self.lock.acquire()
         try:
